@@ -27,13 +27,21 @@ package main
 // other and neither contains '/', '=', '-' or a digit; the map symbol -> bytes is
 // then a prefix code, so prefix and equality relations between symbol strings and
 // between their concrete images coincide and the spec's answer carries over.
+// The one key that is not the image of a symbol string, /gomaxprocs in the pass
+// where k is an ordinary word, additionally needs that "gomaxprocs" cannot be
+// spelled by concatenating the concrete a and k (nmSpells).
 
 import (
+	"bufio"
 	"bytes"
 	"encoding/json"
 	"fmt"
+	"os"
+	"runtime"
 	"strconv"
 	"strings"
+	"sync"
+	"sync/atomic"
 	"unicode"
 	"unicode/utf8"
 
@@ -150,6 +158,23 @@ func nmPrefixClash(x, y string) bool {
 	return strings.HasPrefix(x, y) || strings.HasPrefix(y, x)
 }
 
+// nmSpells reports whether word is a concatenation of copies of x and y.
+func nmSpells(word, x, y string) bool {
+	ok := make([]bool, len(word)+1)
+	ok[0] = true
+	for i := 0; i < len(word); i++ {
+		if !ok[i] {
+			continue
+		}
+		for _, w := range []string{x, y} {
+			if w != "" && strings.HasPrefix(word[i:], w) {
+				ok[i+len(w)] = true
+			}
+		}
+	}
+	return ok[len(word)]
+}
+
 // nmConcretise makes the choices for pass 0 (k ordinary) or 1 (k = gomaxprocs).
 func nmConcretise(name string, pass int) *nmConc {
 	r := &nmRng{s: nmHash(name)*31 + uint64(seed())*0x9e3779b97f4a7c15 + uint64(pass)*7919}
@@ -171,7 +196,10 @@ func nmConcretise(name string, pass int) *nmConc {
 		default:
 			c.a = r.pick(nmInvalid)
 		}
-		if !nmPrefixClash(c.a, c.k) {
+		// In pass 0 the key /gomaxprocs is tested with the spec's answer for a name
+		// that contains no explicit /gomaxprocs= segment, so the word must not be
+		// spellable with the concrete a and k (e.g. k = "gomaxproc", a = "s").
+		if !nmPrefixClash(c.a, c.k) && (c.kIsG || !nmSpells("gomaxprocs", c.a, c.k)) {
 			break
 		}
 	}
@@ -291,9 +319,97 @@ type nmKeyExp struct {
 func famNames(mode string, args []string) error {
 	switch mode {
 	case "replay":
-		return replayLoop("names", args, nmReplay)
+		return nmReplayParallel(args)
 	}
 	return fmt.Errorf("names: unknown mode %q", mode)
+}
+
+// nmReplayParallel is replayLoop with the cases of one chunk spread over several
+// goroutines (the code under test is a set of pure functions of the Result; every
+// case builds its own Result, parsers, projections and filters).  Verdicts are
+// written in input order, one per case, panics are caught per case.
+func nmReplayParallel(args []string) error {
+	if len(args) < 2 {
+		return fmt.Errorf("replay needs <cases> <verdicts>")
+	}
+	in, err := os.Open(args[0])
+	if err != nil {
+		return err
+	}
+	defer in.Close()
+	out, err := os.Create(args[1])
+	if err != nil {
+		return err
+	}
+	defer out.Close()
+	w := bufio.NewWriterSize(out, 1<<20)
+	defer w.Flush()
+	enc := json.NewEncoder(w)
+	sc := bufio.NewScanner(in)
+	sc.Buffer(make([]byte, 1<<20), 1<<28)
+	workers := 8
+	if thorough() {
+		workers = 16
+	}
+	if n := runtime.NumCPU(); n < workers {
+		workers = n
+	}
+	const chunk = 8192
+	lines := make([][]byte, 0, chunk)
+	flush := func() error {
+		verdicts := make([]Verdict, len(lines))
+		var next int64 = -1
+		var wg sync.WaitGroup
+		for g := 0; g < workers; g++ {
+			wg.Add(1)
+			go func() {
+				defer wg.Done()
+				for {
+					i := int(atomic.AddInt64(&next, 1))
+					if i >= len(lines) {
+						return
+					}
+					var hdr struct {
+						ID json.RawMessage `json:"id"`
+					}
+					if err := json.Unmarshal(lines[i], &hdr); err != nil {
+						verdicts[i] = Verdict{OK: false, Signature: "bad-case-line", Detail: err.Error()}
+						continue
+					}
+					v := safeCall(nmReplay, lines[i])
+					v.ID = hdr.ID
+					v.Family = "names"
+					verdicts[i] = v
+				}
+			}()
+		}
+		wg.Wait()
+		for i := range verdicts {
+			if verdicts[i].Signature == "bad-case-line" {
+				return fmt.Errorf("bad case line: %s", verdicts[i].Detail)
+			}
+			if err := enc.Encode(&verdicts[i]); err != nil {
+				return err
+			}
+		}
+		lines = lines[:0]
+		return nil
+	}
+	for sc.Scan() {
+		if len(sc.Bytes()) == 0 {
+			continue
+		}
+		lines = append(lines, append([]byte(nil), sc.Bytes()...))
+		if len(lines) == chunk {
+			if err := flush(); err != nil {
+				return err
+			}
+		}
+	}
+	if err := sc.Err(); err != nil {
+		return err
+	}
+	return flush()
 }
 
 func nmReplay(raw json.RawMessage) Verdict {
